@@ -44,6 +44,10 @@ CLAIMED = {
             "The lifecycle workload of C13 (sessions x link lifetimes x teardown kinds, names re-used after detach, duplicate names, concurrent sessions, deliveries split by both splitting layers) judged on identifiers and routing: delivery-ids strictly increasing per session and equal-or-absent on continuation frames (wire model), no two attached links of a session share a handle, no two live sessions a channel, a name attached at most once per session and a refused duplicate writes nothing, handles/channels re-used only after detach/end (wire models), and every message - which carries (link, generation, sequence) - comes out of the receiving link that the handle designates, in order.",
             "Trusted: the simulator, refcodec. Peers that pick sparse, large or crosswise handle and channel numbers are exercised by the scripted scenarios of C07-C10 (peer handles 9, 1000, 4000, 90000; channels 3, 200).",
             "identifier and routing reference models on the wire + tagged-message routing over a real pair", "3 C11"),
+    "C17": ("exploration",
+            "Seeded search on virtual time: (a) a real pair with channel-max values from {0,1,2,7,255,65535} on either side begins sessions up to and beyond the agreed limit, ends one at the limit and begins again - no begin frame may appear on a channel above min(local, remote), the excess begin must fail locally with the channel-max error and write nothing, the ended channel must be usable again; (b) a real client or listener faces a scripted peer advertising an idle time-out from {unset,0,1,50,333,1000,60000,2^32-1} ms for 8-38 periods with or without application traffic - gaps between consecutive frames at the transport tap must not exceed the advertised value; (c) a real client or listener with its own idle time-out T receives frames with gaps of T/8..7T/8 (optionally a last gap of T-delta), then silence - it must stay up while frames arrive in time and must tear the connection down and report the idle time-out within (T, 3T+5s] of silence.",
+            "Trusted: the simulator, tokio's paused clock (1 ms timer resolution), refcodec. A gap equal to the advertised value (+3 ms) is accepted because the heartbeat period equals the advertised value; silence of exactly T is never generated.",
+            "limit reference models on virtual time (frame-gap measurement at the tap, teardown iff silence > T) and channel-number model on the wire", "3 C17"),
 }
 
 NOT_APPLICABLE = {
